@@ -143,6 +143,12 @@ fn one_spawn(v: &Value, files: &mut Files, out: &mut Vec<String>, idx: usize) {
     if v["exe_is_cmd"].as_bool().unwrap_or(false) {
         argv[0] = OsString::from("different-argv0");
     }
+    if v["clone_cfg"].as_bool().unwrap_or(false) {
+        // the configuration is used as a template: what is launched is a clone of it
+        let c = cfg.try_clone().expect("try_clone");
+        drop(cfg);
+        cfg = c;
+    }
     let passed: Vec<Value> = files.opened.drain(..).collect();
 
     // "repoint": between two launches of the same thread the parent re-points its own stdout / stderr at
